@@ -248,6 +248,16 @@ def gen_merge_malformed(ctx):
         c = merge_case(rng, k, split, family="malformed:duplicate-sources")
         c["sources"][1] = c["sources"][0]
         cases.append(c)
+        # the same source file listed in several groups (a shared reference run averaged into every target) and several
+        # times in one group: still k*split paths, every target is the mean of the files its group names
+        c = merge_case(rng, k, split, family="valid:duplicate-sources-across-groups")
+        for j in range(1, k):
+            c["sources"][j * split] = c["sources"][0]
+        cases.append(c)
+        c = merge_case(rng, k, split, family="valid:duplicate-sources-across-groups")
+        c["sources"][split + split - 1] = c["sources"][1]
+        c["sources"][0] = c["sources"][1]
+        cases.append(c)
         for bad in range(k):                      # shape mismatch inside group `bad` (1-D tables of different length)
             shapes = {j: (3,) for j in range(k)}
             c = merge_case(rng, k, split, shapes=shapes, family="remark:shape-mismatch-in-group")
@@ -422,7 +432,7 @@ def observed_schedule(case, obs):
     if case["variant"] == "pool":
         if case["mode"] == "fake":
             return obs["rec"].get("schedule"), None
-        cs = obs["hdr"].get("chunksize", 1)
+        cs = max(1, obs["hdr"].get("chunksize", 1))          # a printed chunksize of 0 (then Pool raises) must not break the harness
         m = (S + cs - 1) // cs
         label_idx = {c19_jobs.label_of(i): i for i in range(S)}
         arrival = [label_idx[l] for l, _ in obs["printed"] if l in label_idx]
